@@ -229,6 +229,23 @@ pub fn malformed_on_later_lines() -> Vec<Vec<u8>> {
 }
 
 /// All texts of the corpus regardless of dialect, plus the malformed pool.
+/// A backslash followed by every ASCII byte, as an Emacs character (`?\x`), inside an Emacs /
+/// R6RS string, and after `#\`: the escape tables have a default arm ("any other character
+/// stands for itself") whose boundary at DEL / 0x80 nothing else reaches (mutant: `> 0x7F`
+/// turned into `>= 0x7F` in that arm).
+pub fn backslash_each_ascii() -> Vec<Vec<u8>> {
+    let mut out = Vec::new();
+    for b in 0u8..=0x7f {
+        out.push(vec![b'?', b'\\', b]);
+        out.push(vec![b'(', b'?', b'\\', b, b' ', b'a', b')']);
+        out.push(vec![b'"', b'\\', b, b'"']);
+        out.push(vec![b'"', b'a', b'\\', b, b'b', b'"']);
+        out.push(vec![b'#', b'\\', b]);
+        out.push(vec![b'?', b]);
+    }
+    out
+}
+
 pub fn corpus_all(rich: bool) -> Vec<Vec<u8>> {
     let mut v: Vec<Vec<u8>> = corpus_g(rich).into_iter().map(|x| x.0).collect();
     v.extend(depth_boundary_texts());
@@ -240,6 +257,7 @@ pub fn corpus_all(rich: bool) -> Vec<Vec<u8>> {
         v.push(s.to_vec());
     }
     v.extend(long_number_tokens());
+    v.extend(backslash_each_ascii());
     v.sort_by(|a, b| (a.len(), a).cmp(&(b.len(), b)));
     v.dedup();
     v
